@@ -75,6 +75,17 @@ CLAIMED["C10"] = dict(
         "of data classes are simulated only up to parse_value; exact reported items are checked by execution (generator knows which "
         "fields it invalidated).",
    technique="Coq simulation proof between the fail-fast and collecting runs of the parse calculus + correspondence and direct oracle", design="§8 C10")
+CLAIMED["C09"] = dict(
+   text="Machine-checked proof (Coq): for every recursive knot, options, nesting level and input — union: exact-class values "
+        "returned unchanged, a stage succeeds iff an argument accepts and returns that argument's output, results conform (C01 "
+        "instance); exclusive-or: accepted exactly when one and only one argument accepts the GIVEN input (C09_xor_exactly_one) and "
+        "verdict and value are invariant under every permutation of the arguments (C09_xor_order_independent); negation: accepts "
+        "exactly when the argument rejects and returns the input; conjunction: the chain of sequential applications. "
+        "Construction algebra (Any absorption, singleton, no duplicates, same-kind flattening, double negation) on Model/Combine.v.",
+   note="Trusted: as C01; Model/Combine.v is a hand model of LogicalType.combine/combine_by/__invert__ tied by structural comparison "
+        "of constructed types (combine suite); type identity is modelled by structural equality of the declaration trees. "
+        "'decided' hypotheses exclude arguments whose verdict is outside the model (Unmodelled) or a DepthExceedError at entry.",
+   technique="Coq proofs on the logical_parse model (loop invariants, permutation argument) + correspondence and per-argument oracle", design="§8 C09")
 NOT_YET = {}
 for i in range(1, 21):
     pid = "C%02d" % i
